@@ -24,6 +24,9 @@ type C06Params struct {
 	// directive; empty when the statement does not pin the order / winner down
 	// (duplicates in F, competing pairs).
 	Typed string `json:"typed,omitempty"`
+	// TypedAlts: with duplicates in F the statement still demands F's relative order; every choice of which
+	// occurrence represents a duplicated entry is a legal reading, the output must equal one of them.
+	TypedAlts []string `json:"typed_alts,omitempty"`
 	// Expect: for every contributed entry the set of acceptable rewritten forms
 	// (more than one only when several pairs compete for the entry).
 	Expect [][]string `json:"expect"`
@@ -323,6 +326,45 @@ func genC06(t *rapid.T, tier string) (*World, any) {
 	}
 	if !feat["duplicate"] && !competing {
 		p.Typed = build(typedWords)
+	} else if feat["duplicate"] && !competing {
+		// positions of every distinct surviving entry
+		pos := map[string][]int{}
+		var distinct []string
+		for i, e := range survivors {
+			if _, ok := pos[e]; !ok {
+				distinct = append(distinct, e)
+			}
+			pos[e] = append(pos[e], i)
+		}
+		seenAlt := map[string]bool{}
+		var rec func(k int, chosen map[string]int)
+		rec = func(k int, chosen map[string]int) {
+			if len(p.TypedAlts) >= 24 {
+				return
+			}
+			if k == len(distinct) {
+				order := append([]string{}, distinct...)
+				sort.Slice(order, func(a, b int) bool { return chosen[order[a]] < chosen[order[b]] })
+				var words []string
+				for _, e := range order {
+					f := rewriteForms(e, pairs)
+					if f[0] != "" {
+						words = append(words, f[0])
+					}
+				}
+				txt := build(words)
+				if !seenAlt[txt] {
+					seenAlt[txt] = true
+					p.TypedAlts = append(p.TypedAlts, txt)
+				}
+				return
+			}
+			for _, at := range pos[distinct[k]] {
+				chosen[distinct[k]] = at
+				rec(k+1, chosen)
+			}
+		}
+		rec(0, map[string]int{})
 	}
 	if competing {
 		feat["competing"] = true
@@ -358,6 +400,7 @@ func evalC06(sc *Scenario, sim *Sim) ([]Violation, bool, string) {
 		typed = &r
 	}
 	plans := append([]simrt.Plan{{}}, p.Plans...)
+	var altOut []string
 	for pi, plan := range plans {
 		r := gen(p.Prog, plan)
 		if r.Exit != 0 {
@@ -404,6 +447,26 @@ func evalC06(sc *Scenario, sim *Sim) ([]Violation, bool, string) {
 				viol = append(viol, Violation{Prop: "C06", Oracle: "membership", Sig: "C06/membership/extra/" + p.Kind + "/" + feats,
 					Msg: fmt.Sprintf("word %q must not be contributed (excluded, or not a legal rewrite) but the generated regex matches it (schedule %d)", u, pi),
 					Detail: fmt.Sprintf("program:\n%s\noutput: %q\nfiles: %s", p.Prog, out, worldText(sc.World))})
+				return viol, true, ""
+			}
+		}
+		if len(p.TypedAlts) > 0 && len(p.TypedAlts) < 24 {
+			if altOut == nil {
+				for _, a := range p.TypedAlts {
+					ar := gen(a, simrt.Plan{})
+					altOut = append(altOut, string(ar.Stdout))
+				}
+			}
+			ok := false
+			for _, a := range altOut {
+				if a == out {
+					ok = true
+				}
+			}
+			if !ok {
+				viol = append(viol, Violation{Prop: "C06", Oracle: "typed-in-place", Sig: "C06/order-with-duplicates/" + p.Kind + "/" + feats,
+					Msg: fmt.Sprintf("F has duplicate entries; the output equals none of the %d programs that type the survivors in an order consistent with F (schedule %d)", len(p.TypedAlts), pi),
+					Detail: fmt.Sprintf("program:\n%s\ngot: %q\nlegal: %q\nfiles: %s", p.Prog, out, altOut, worldText(sc.World))})
 				return viol, true, ""
 			}
 		}
